@@ -67,12 +67,51 @@ class Sharing:
                     pass
         return out
 
-    def share(self, t):
+    def share(self, t, _depth=0):
         if not isinstance(t, tuple):
             return {}
         k = t[0]
         if is_root(t):
             return {t: (0, 0)}
+        if k == "var" and len(t) > 2 and t[2]:
+            # several reaching definitions: the value may be any of them
+            guard = self.__dict__.setdefault("_expanding", set())
+            if (t[1], t[2]) in guard or len(guard) > 6:
+                return {}
+            guard.add((t[1], t[2]))
+            try:
+                return self._share_var(t)
+            finally:
+                guard.discard((t[1], t[2]))
+        return self._share_rest(t)
+
+    def _share_var(self, t):
+        fl = self.fi.flow
+        _depth = 0
+        out = {}
+        if True:
+            for did in t[2]:
+                d = fl.defs[did]
+                sh = {}
+                if d.kind == "param":
+                    sh = {("param", d.var): (0, 0)}
+                elif d.kind in ("assign", "walrus") and d.value is not None:
+                    try:
+                        sh = self.share(fl._apply_path(fl.canon(d.value, d.node), d.path))
+                    except RecursionError:
+                        sh = {}
+                elif d.kind == "for" and d.value is not None:
+                    try:
+                        sh = self.share(fl._apply_path(("iter", None, fl.canon(d.value, d.node)), d.path))
+                    except RecursionError:
+                        sh = {}
+                for r, v in sh.items():
+                    if r not in out or v[1] < out[r][1]:
+                        out[r] = v
+        return out
+
+    def _share_rest(self, t):
+        k = t[0]
         if k in ("const", "ext", "fn", "cls", "modconst", "builtin", "unresolved", "lambda", "excvar", "withvar", "opaque",
                  "fstr", "cmp", "boolop", "unop", "var", "effect", "entryattr", "slice"):
             return {}
